@@ -35,7 +35,7 @@ def main():
                 print(sid, res["error"])
                 continue
             for prop in props:
-                for tier in ("quick", "thorough"):
+                for tier in (("quick",) if os.environ.get("SEEDED_QUICK_ONLY") else ("quick", "thorough")):
                     t0 = time.time()
                     p = sh("./check %s --tier %s" % (prop, tier), cwd=ROOT)
                     lines = [l for l in p.stdout.splitlines() if l.startswith(("VIOLATION", "KNOWN-FINDING", "INFRA", "INCONCLUSIVE", prop + " "))]
